@@ -3,7 +3,7 @@
 
 Idempotent: everything from the marker line on is replaced.  Sections 1-7 and Appendices A-B (the design as written
 before any code existed) are never touched."""
-import os, subprocess, sys
+import glob, importlib, json, os, re, subprocess, sys
 HERE = os.path.dirname(os.path.dirname(os.path.abspath(__file__)))
 MARK = '<!-- implementation report: generated below this line by tools/finalize_design.py -->'
 p = os.path.join(HERE, 'DESIGN.md')
@@ -14,9 +14,58 @@ if MARK in s:
 for head in ('## Appendix C — rules as implemented',):
     if head in s:
         s = s[:s.index(head)].rstrip('\n') + '\n'
+
+
+def values():
+    """Numbers quoted in section 8: computed from the committed evidence, matrices, known_findings.json, seeded/ and /repo's
+    history; the few that come from a measurement run (refactoring rounds) are read from notes/design_values.json."""
+    v = json.load(open(os.path.join(HERE, 'notes', 'design_values.json')))
+    ev = [json.load(open(f)) for f in sorted(glob.glob(os.path.join(HERE, 'evidence', 'C*.json')))]
+    v['NRULES'] = sum(len(e['coverage'].get('rules', [])) for e in ev)
+    v['NOBL'] = sum(e['coverage'].get('obligations', 0) for e in ev)
+    sys.path.insert(0, HERE)
+    nv = nt = 0
+    for i in range(1, 21):
+        try:
+            m = importlib.import_module('sa.mutants.c%02d' % i)
+        except ModuleNotFoundError:
+            continue
+        nv += len(m.VARIANTS)
+        nt += sum(1 for x in m.VARIANTS if x.kind == 'twin')
+    v['NVARIANTS'], v['NTWINS'] = nv, nt
+    kf = json.load(open(os.path.join(HERE, 'known_findings.json')))
+    v['NKNOWN'] = sum(1 for f in kf['findings'] if f.get('status') == 'known')
+    v['NFIXED'] = sum(1 for f in kf['findings'] if f.get('status') == 'fixed')
+    log = subprocess.run(['git', '-C', '/repo', 'log', '--format=%s', 'b8a063f..HEAD'], capture_output=True, text=True).stdout.splitlines()
+    v['NFIXCOMMITS'] = sum(1 for l in log if l.startswith('fix:'))
+    fin = {}
+    for mp in glob.glob(os.path.join(HERE, 'seeded', 'C*', 'meta.json')):
+        m = json.load(open(mp))
+        r = m.get('round', 1)
+        f = m.get('final_version_of_the_checks', {})
+        c = fin.setdefault(r, [0, 0, 0, 0])
+        if f.get('status') != 'confirmed':
+            c[3] += 1
+        elif f.get('detected_by'):
+            c[0] += 1
+        elif f.get('undecided_in'):
+            c[1] += 1
+        else:
+            c[2] += 1
+    for r, c in fin.items():
+        v['R%dFINAL' % r] = '%d detected, %d undecided, %d missed' % (c[0], c[1], c[2]) + (', %d no longer apply' % c[3] if c[3] else '')
+    return v
+
+
 parts = [s, '\n' + MARK + '\n']
+vals = values()
 for f in ('design_section8.md', 'design_section8b.md'):
-    parts.append(open(os.path.join(HERE, 'notes', f), encoding='utf-8').read().rstrip('\n') + '\n')
+    t = open(os.path.join(HERE, 'notes', f), encoding='utf-8').read().rstrip('\n') + '\n'
+    t = re.sub(r'\{([A-Z0-9]+)\}', lambda m: str(vals[m.group(1)]) if m.group(1) in vals else m.group(0), t)
+    left = re.findall(r'\{[A-Z0-9]+\}', t)
+    if left:
+        print('unfilled placeholders in', f, sorted(set(left)))
+    parts.append(t)
 app = subprocess.run([sys.executable, os.path.join(HERE, 'tools', 'gen_design_appendix.py')], capture_output=True, text=True, cwd=HERE)
 if app.returncode != 0:
     sys.exit('gen_design_appendix failed: ' + app.stderr[-2000:])
